@@ -22,7 +22,9 @@ def registry_case(draw):
     for _ in range(n):
       k = draw(st.sampled_from(["append", "attr", "event_name", "event_number", "name_for", "is_inner"]))
       ops.append([k, draw(ident if k == "attr" else anyname)])
-    return {"mode": mode, "ops": ops, "tag": tag}
+    # "grow": the registry holds at least that many names before the case starts (numbers beyond
+    # CPython's shared small integers, where equal numbers are no longer the same object)
+    return {"mode": mode, "ops": ops, "tag": tag, "grow": draw(st.sampled_from([0, 0, 300]))}
   nthreads = draw(st.integers(2, 3))
   shared = draw(st.lists(ident, min_size=1, max_size=3))
   threads = []
@@ -62,7 +64,9 @@ class C25(Prop):
   rule = ("Two generated families. Sequential: 1-12 operations on the process-wide registry from "
           "append(name), attribute access (identifier that is not already an attribute of the "
           "registry object), Event(name), Event(number), name_for_signal(number), "
-          "is_inner_signal(name or number); names are identifiers, arbitrary text (including the "
+          "is_inner_signal(name or number) - numbers are handed over as fresh int objects equal to the "
+          "registered one, and a third of the cases first grow the registry to 300 names so that "
+          "numbers lie beyond the interpreter's shared small integers; names are identifiers, arbitrary text (including the "
           "empty string) and the ten built-in names; model seeded from the live registry. "
           "Concurrent: 2-3 threads x 1-4 operations (append / attribute access / Event(name) "
           "registrations over shared and private fresh names, and Event(number) / name_for_signal "
@@ -100,6 +104,10 @@ class C25(Prop):
     while len(signals) < max(signals.values()):
       k += 1
       signals["vf_pad_%d_%d" % (C25.executions, k)] = -len(signals) - 1000
+    k = 0
+    while len(signals) < case.get("grow", 0):
+      k += 1
+      signals.append("vf_grow_%d_%d" % (C25.executions, k))
     if case["mode"] == "sequential":
       return self.check_sequential(case, stats)
     return self.check_concurrent(case, stats)
@@ -145,13 +153,14 @@ class C25(Prop):
               where, e.signal, e.signal_name, model[name]), "C25:event")
         elif k == "event_number":
           if name in model:
-            e = Event(signal=model[name])
+            # an equal number that is not the very object the registry holds (parsed, computed)
+            e = Event(signal=int(str(model[name])))
             if e.signal != model[name] or e.signal_name != name:
               raise PropertyViolation("Event(%r) reports %r / %r, expected %r" % (
                 model[name], e.signal, e.signal_name, name), "C25:event")
         elif k == "name_for":
           if name in model:
-            got = signals.name_for_signal(model[name])
+            got = signals.name_for_signal(int(str(model[name])))
             if got != name:
               raise PropertyViolation("name_for_signal(%r) gave %r, expected %r" % (model[name], got, name),
                                       "C25:name_for_signal")
@@ -159,7 +168,7 @@ class C25(Prop):
           for arg in (name, model.get(name)):
             if arg is None:
               continue
-            got = signals.is_inner_signal(arg)
+            got = signals.is_inner_signal(arg if isinstance(arg, str) else int(str(arg)))
             if bool(got) != (name in BUILTIN):
               raise PropertyViolation("is_inner_signal(%r) gave %r" % (arg, got), "C25:inner")
       except PropertyViolation:
@@ -183,7 +192,8 @@ class C25(Prop):
         if bool(got) != (n in BUILTIN):
           raise PropertyViolation("is_inner_signal(%r) gave %r (%r is %sa built-in signal)" % (
             arg, got, n, "" if n in BUILTIN else "not "), "C25:inner")
-    stats.case(case, bool(newvia), ["sequential"] + ["new_via_" + v for v in sorted(newvia)])
+    stats.case(case, bool(newvia), ["sequential", "registry_over_256" if len(before) > 256 else "registry_small"] +
+               ["new_via_" + v for v in sorted(newvia)])
 
   def check_concurrent(self, case, stats):
     ao = detsched.install()
